@@ -137,6 +137,18 @@ pub fn check_term(cx: &Ctx, t: &OwnedTerm, family: &str) {
 }
 
 pub fn run(rep: &Report) -> serde_json::Value {
+    // atoms by name: what the encoder writes for an atom built from a string is that string (judged against the string,
+    // not against a value that went through the library's constructor)
+    for name in crate::universe::atom_names(rep.thorough()) {
+        if name.len() > 65535 { continue; }
+        rep.add("evaluations", 1);
+        let t = OwnedTerm::Atom(erltf::types::Atom::new(name.as_str()));
+        let on_wire = erltf::encode(&t).ok().and_then(|b| vcore::refcodec::ref_decode(&b).ok());
+        let back = erltf::encode(&t).ok().and_then(|b| erltf::decode(&b).ok()).map(|d| matches!(&d, OwnedTerm::Atom(a) if a.as_str() == name));
+        if !on_wire.as_ref().map(|w| exact_eq(w, &vcore::refval::RefVal::atom(&name))).unwrap_or(false) || back != Some(true) {
+            rep.violation("an atom built from a name is written or read back under another name", json!({"name": name.chars().take(40).collect::<String>(), "on_the_wire": on_wire.map(|w| w.short()), "decoded_name_matches": back}));
+        }
+    }
     let cx = Ctx { rep, seen: Mutex::new(HashSet::new()) };
     let thorough = rep.thorough();
     let l1 = leaves_full(thorough);
